@@ -28,21 +28,34 @@ CHECKS = {
  'C04': _b('FileSpec21 (an independent decoder written from biom-2.1.rst with raw h5py) evaluated on every file written '
            'by to_hdf5 / save_table / biom convert, incl. empty-axis and all-zero tables. Bounded only.'),
  'C05': _b('Representation invariant Inv and accessor agreement evaluated after every operation of the alphabet on every '
-           'small state, exhaustive histories to depth 2 (thorough 3, random to 8). Deductive part: the row-compaction kernel _remove_rows_csr (Tier P, see C08); '
-           'the errcheck machinery the invariant rests on is proved under C20; the Table methods themselves are bounded.'),
+           'small state, exhaustive histories to depth 2 (thorough 3, random to 8). Deductive part: Tier P - the row-compaction '
+           'kernel _remove_rows_csr (see C08), _axis_to_num, _index, ids, index, exists, length, is_empty (accessors answer from the '
+           'id arrays / lookup tables of the right axis and change nothing); Tier A (view-level scipy model) - _index_ids, sum, nnz, '
+           'get_table_density, filter. The errcheck machinery the invariant rests on is proved under C20; constructors and the '
+           'other operations are bounded.', technique=TECH),
  'C06': _b('Contracts of sort / sort_order / align_to / transpose / copy / update_ids (permute or relabel only; inverse '
-           'laws) over all permutations of axes up to 4, injective / partial renamings, all layouts. Bounded only.'),
+           'laws) over all permutations of axes up to 4, injective / partial renamings, all layouts. Deductive part (Tier A, '
+           'view-level scipy model): Table.sort_order (the ids of the axis become exactly the requested order, every cell and '
+           'every metadata entry travels with its id, the other axis and the receiver are untouched, unknown ids refused), '
+           'Table.sort (sort_f sees the ids of the axis once; what it returns is handed to sort_order on the same axis), '
+           'Table.transpose (cells mirrored, ids and metadata of the axes swapped, receiver untouched), Table.copy. '
+           'align_to / update_ids are bounded.', technique=TECH),
  'C07': _b('Frame and freshness contracts of every in-place-flag operation and every new-table operation: deep snapshots '
            'of receiver and arguments, show-through test by in-place operations on the result. Deductive part: the frame '
-           '(modifies) clauses of the _filter / _transform kernels (Tier P); the Table-level pattern is bounded.'),
+           '(modifies) clauses - checked as frame obligations - of the _filter / _transform kernels (Tier P) and of Table.copy, '
+           'filter, transform, norm, pa, rankdata, subsample, sort, sort_order, transpose (Tier A): result is the receiver exactly '
+           'when inplace is set, otherwise the receiver keeps its matrix object and cells. The remaining operations are bounded.',
+           technique=TECH),
  'C08': dict(level='other', technique=TECH,
   text='Tier P (proved for all inputs, no library axioms): _remove_rows_csr (row compaction keeps exactly the selected '
        'rows, entry by entry, in order), _make_filter_array_general (predicate called once per id, in order, with the true '
-       'dense vector, id and metadata; result = truth xor invert) and, for C13, _transform - loop invariants over ghost '
-       'rank / kept-entry prefix functions. Bounded: the contract of Table.filter / head / remove_empty on every matrix '
-       'over {0,1,2} up to 2x2 (thorough 3x3) x every layout x every subset x invert x axis x inplace x ID forms.',
-  note='kernel proofs: C integers treated as mathematical, numpy slices modelled as copies, callbacks pure; _filter glue '
-       'and Table.filter are bounded, not proved; scipy conversions trusted'),
+       'dense vector, id and metadata; result = truth xor invert) - loop invariants over ghost rank / kept-entry prefix '
+       'functions. Tier A: Table.filter (id collection or predicate, invert, axis mapping, layout handed to the kernel, ids / '
+       'metadata kept in step, inplace) and Table.head (first n x m in order). Bounded: the contract of Table.filter / head / '
+       'remove_empty on every matrix over {0,1,2} up to 2x2 (thorough 3x3) x every layout x every subset x invert x axis x '
+       'inplace x ID forms.',
+  note='kernel proofs: C integers treated as mathematical, numpy slices modelled as copies, callbacks pure; the module-level '
+       '_filter glue and remove_empty are bounded, not proved; scipy conversions assumed (view-level model)'),
  'C09': _b('Contract of merge (pointwise sum over union / intersection, metadata policy, fast path = general path) over '
            'pairs and k-tuples with disjoint / nested / partial / identical / permuted ID sets. Bounded only.'),
  'C10': _b('Contract of Table.concat / biom.concat (blocks unchanged, zero padding, disjointness refused) for k = 1..3 '
@@ -60,10 +73,12 @@ CHECKS = {
            technique=TECH),
  'C13': dict(level='other', technique=TECH,
   text='Tier P: _transform (f receives exactly the stored values of each vector as they were at entry, with its id and '
-       'metadata; results written back to the same positions; nothing else changes). Bounded: contract of Table.transform / '
-       'norm / pa / rankdata / _normalize_table over functions x axes x layouts x stored zeros.',
-  note='kernel proof as for C08; that the table hands the kernel a matrix without stored zeros in the layout matching the '
-       'axis is checked by the bounded tier only'),
+       'metadata; results written back to the same positions; nothing else changes). Tier A: Table.transform (the kernel '
+       'gets the matrix of the copy or the receiver in the layout of the axis, stored zeros eliminated before and after, ids '
+       'and metadata of that axis), norm / pa / rankdata (one transform call on the same receiver, axis and inplace flag). '
+       'Bounded: contract of Table.transform / norm / pa / rankdata / _normalize_table over functions x axes x layouts x '
+       'stored zeros (the arithmetic of the fixed functions of norm / pa / rankdata is bounded only).',
+  note='kernel proof as for C08; scipy conversions / eliminate_zeros assumed (view-level model)'),
  'C14': _b('Contract "subset while reading = read all, then filter" for from_hdf5(ids=) with / without metadata, '
            'parse_table(ids=), _subset_table on JSON text (compact / spaced / indented) and HDF5, unknown-ID refusal. '
            'Bounded only: the string scanners are outside the verifier.'),
